@@ -157,6 +157,16 @@ def run_check(pid, tier, seed, PROPS, verbose=False):
             else:
                 violations.append((v['desc'], v['replay'], v['class']))
 
+    # ---- a run that generated nothing proves nothing
+    if not sel:
+        undecided.append('no contract is selected for this property (sidecar and props.py out of step)')
+    n_real = len([r for r in results if r.obl.kind not in ('V', 'K')])
+    if sel and n_real == 0 and not eng.unsupported:
+        undecided.append('the selected contracts generated no obligation')
+    for k_ in sel:
+        if k_ not in eng.unsupported and not any(getattr(r.obl, 'func', None) == k_ for r in results):
+            undecided.append('contract %s generated no obligation' % k_)
+
     # ---- deductive verdicts
     out_of_reach = dict(eng.unsupported)
     ded_known = []
